@@ -26,7 +26,7 @@ RULE = ("O1: calculate()/validate() of the repo against a bitwise CRC-16/MODBUS 
 ASSUMPTIONS = ["refproto.crc16 (bitwise) is anchored by every CRC printed in the vendor PDFs",
                "SimNet models TCP delivery; fidelity cross-check in C07 thorough",
                "inductive extension of the CRC to all lengths is not claimed"]
-REQUIRED_OBS = ["corner_frames_delivered", "crc_strings", "corrupt_resets", "probe_after_reset_delivered"]
+REQUIRED_OBS = ["damaged_copy_after_intact_original", "corner_frames_delivered", "crc_strings", "corrupt_resets", "probe_after_reset_delivered"]
 BUDGET = {"quick": 100, "thorough": 1500}
 
 MAX_PROBE_BYTES = 65535
@@ -476,6 +476,13 @@ def run_case(case):
     decided = 0
     for bits in case["patterns"]:
         vv, oo = run_corrupt_one(gen, kind, raw_a, raw_b, bits)
+        if not vv and max(bits) < 48:
+            # damage confined to the covered header bytes: also with the intact frame itself
+            # (same payload, same check bytes) delivered right before its damaged copy
+            vv, o2 = run_corrupt_one(gen, kind, raw_b, raw_b, bits)
+            oo["damaged_copy_after_intact_original"] = 1
+            for k2, c2 in o2.items():
+                oo[k2] = oo.get(k2, 0) + c2
         viol += vv
         for k, n in oo.items():
             obs[k] = obs.get(k, 0) + n
